@@ -8,7 +8,9 @@
 (*  kind "matchers": re, w, match, nfa, sw, alive[k], acc[k] (per prefix),  *)
 (*                   shared = <<match, nfa_match, starts_with>> asked of a  *)
 (*                   pattern whose sub-patterns are OBJECTS shared with the *)
-(*                   patterns of earlier calls (a pattern is a value)       *)
+(*                   patterns of earlier calls (a pattern is a value);      *)
+(*                   pred = the same three asked of the pattern written    *)
+(*                   with a fresh predicate object for every atom          *)
 (*  kind "search"  : re, w, ms = <<<<start, end>>..>>, toks[i] = recorded  *)
 (*  exc # ""       : the call raised / timed out - no action accepts that  *)
 (***************************************************************************)
@@ -26,6 +28,7 @@ MatchersClause(c) ==
     [] c.nfa # InL(c.re, c.w) -> "NfaMatchIsMembership"
     [] c.sw # ShortestPrefix(c.re, c.w) -> "StartsWithIsShortestPrefix"
     [] c.shared # <<InL(c.re, c.w), InL(c.re, c.w), ShortestPrefix(c.re, c.w)>> -> "SharedSubPatterns"
+    [] c.pred # <<InL(c.re, c.w), InL(c.re, c.w), ShortestPrefix(c.re, c.w)>> -> "AtomsAsPredicateObjects"
     [] \E k \in 1..Len(c.alive) : c.alive[k] # Viable(c.re, Prefix(c.w, k)) -> "PatternAliveIsViable"
     [] \E k \in 1..Len(c.acc) : c.alive[k] /\ c.acc[k] # InL(c.re, Prefix(c.w, k)) -> "PatternAcceptingIsMembership"
     [] OTHER -> "none"
